@@ -11,6 +11,8 @@ PID = "C30"
 THEOREMS = [
     "PorepyVerif.C30.pt_pt_symm",
     "PorepyVerif.C30.pt_pt_zero_iff",
+    "PorepyVerif.C30.pt_pt1_metric",
+    "PorepyVerif.C30.pointset_entry",
     "PorepyVerif.C30.pt_seg_closest_on_seg",
     "PorepyVerif.C30.pt_seg_minimal",
     "PorepyVerif.C30.seg_seg_closest_on_segs",
@@ -24,6 +26,7 @@ THEOREMS = [
     "PorepyVerif.C30.convex_nearest_on_boundary",
     "PorepyVerif.C30.pt_polygon_minimal_convex",
     "PorepyVerif.C30.seg_poly_minimal_convex",
+    "PorepyVerif.C30.seg_poly_attained_convex",
     "PorepyVerif.C30.seg_poly_cross_sound",
     "PorepyVerif.C30.seg_poly_general_min",
 ]
@@ -33,13 +36,13 @@ DRIVER = "PorepyVerif/C30/Driver.lean"
 N = {"quick": 800, "thorough": 50000}
 TOL_SS = F(1, 10**8)      # SMALL_TOLERANCE factor of segment_segment_set
 TOL_P = F(1, 10**5)       # default tol of points_polygon / segments_polygon
-RULE = ("one call of point_pointset / points_segments / segment_segment_set / segment_set / points_polygon / segments_polygon per case, "
+RULE = ("one call of point_pointset (exponent 2 or 1) / pointset (with and without max_diag) / points_segments / segment_segment_set / segment_set / points_polygon / segments_polygon per case, "
         "2-d and 3-d, coordinates small dyadic rationals (k/1,k/2,k/4, |k|<=16) so that all dot products are exact in binary64; "
         "structured placements: collinear, parallel (offset / overlapping / disjoint), shared end points, T-touching, crossing, skew, "
         "perpendicular foot inside/at/outside the ends, zero-length segments (dedicated stream), a power-of-two rescaling stream "
         "(2^-20..2^12) for segment-segment; polygons: simple star-shaped (convex and non-convex, 3-7 vertices, both orientations) in the "
         "xy-plane or in a random integer frame, points above the interior / an edge / a vertex / outside / in the plane, segments "
-        "crossing, touching, parallel above, inside the plane, aimed at the polygon but stopping short; pairs that are nearly but not exactly "
+        "crossing, touching, parallel above, inside the plane, aimed at the polygon but stopping short; single points / segments are also passed as 1-d arrays (alternative entry form); explicit strata are counted in input_distribution.strata; pairs that are nearly but not exactly "
         "parallel (0 < sin^2 < 1e-6, the kernel's tolerance band is 1e-8) are dropped and counted; non-trivial = not (everything in general position: a placement class "
         "other than 'random' was used or a polygon is non-convex); distinct = distinct cases")
 TRUSTED = [
@@ -362,6 +365,15 @@ def gen_poly_point(rng, p2, frame):
         a, b = p2[i], p2[(i + 1) % n]
         s = F(rng.choice([1, 2, 3, -1, 5, 6]), 4)
         return lift(frame, a[0] + s * (b[0] - a[0]), a[1] + s * (b[1] - a[1]), z), "over-edge-line"
+    if r < 0.38:
+        # explicit stratum: strictly inside AND on the extension of an edge (only possible in non-convex polygons)
+        for _ in range(12):
+            i = rng.randrange(n)
+            a, b = p2[i], p2[(i + 1) % n]
+            sx = F(rng.choice([-3, -2, -1, 5, 6, 7, 8]), 4)
+            q = [a[0] + sx * (b[0] - a[0]), a[1] + sx * (b[1] - a[1])]
+            if x_in_poly_2d([[F(v[0]), F(v[1])] for v in p2], q) > 0:
+                return lift(frame, q[0], q[1], z), "edge-extension-inside"
     if r < 0.50:
         # near the origin, which is strictly inside
         return lift(frame, F(rng.randint(-2, 2), 4), F(rng.randint(-2, 2), 4), z), "over-interior"
@@ -417,13 +429,33 @@ def gen_case(rng, tier):
 
 
 def _gen_case(rng, tier):
+    c = _gen_case0(rng, tier)
+    # alternative entry form: the functions accept 1-d arrays for a single point / segment
+    single = {"ptseg": len(c.get("pts", [])) == 1 and len(c.get("segs", [])) == 1, "ptpoly": len(c.get("pts", [])) == 1,
+              "segpoly": len(c.get("segs", [])) == 1, "ptset": len(c.get("pts", [])) == 1}.get(c["kind"], False)
+    if single and rng.random() < 0.5:
+        c["flat"] = True
+        c["tags"] = sorted(set(c["tags"]) | {"flat-1d-input"})
+    return c
+
+
+def _gen_case0(rng, tier):
     r = rng.random()
     nd = rng.choice([2, 3])
+    if r < 0.04:
+        # pointset(p, max_diag): mutual distances
+        n = rng.choice([1, 1, 2, 3, 4, 5])
+        pts = [rpt(rng, nd) for _ in range(n)]
+        if n > 2 and rng.random() < 0.4:
+            pts[-1] = list(pts[0])
+        md = rng.random() < 0.5
+        return {"kind": "ptset", "nd": nd, "pts": [enc(q) for q in pts], "max_diag": md, "tags": ["max-diag" if md else "plain"] + (["single-point"] if n == 1 else [])}
     if r < 0.07:
         p = rpt(rng, nd)
         n = rng.randint(0, 5)
         qs = [rpt(rng, nd) if rng.random() < 0.8 else list(p) for _ in range(n)]
-        return {"kind": "ptpt", "nd": nd, "p": enc(p), "q": [enc(q) for q in qs], "tags": ["random"]}
+        ex = rng.choice([2, 2, 1])
+        return {"kind": "ptpt", "nd": nd, "exponent": ex, "p": enc(p), "q": [enc(q) for q in qs], "tags": ["random", f"exponent-{ex}"] + (["empty-set"] if n == 0 else [])}
     if r < 0.27:
         npt, ns = rng.randint(1, 4), rng.randint(1, 4)
         degenerate = rng.random() < 0.06
@@ -554,9 +586,15 @@ def _call(case):
             if kind == "ptpt":
                 q = _pts(case, "q")
                 arr = cols(q) if q else np.zeros((case["nd"], 0))
-                return D.point_pointset(np.array(fl(dec(case["p"], case.get("k", 0)))), arr)
+                return D.point_pointset(np.array(fl(dec(case["p"], case.get("k", 0)))), arr, exponent=case.get("exponent", 2))
+            if kind == "ptset":
+                pts = _pts(case, "pts")
+                arr = np.array(fl(pts[0])) if case.get("flat") else cols(pts)
+                return D.pointset(arr, case["max_diag"])
             if kind == "ptseg":
                 segs = _segs(case, "segs")
+                if case.get("flat"):
+                    return D.points_segments(np.array(fl(_pts(case, "pts")[0])), np.array(fl(segs[0][0])), np.array(fl(segs[0][1])))
                 return D.points_segments(cols(_pts(case, "pts")), cols([s[0] for s in segs]), cols([s[1] for s in segs]))
             if kind == "segseg":
                 k = case.get("k", 0)
@@ -567,9 +605,11 @@ def _call(case):
                 segs = _segs(case, "segs")
                 return D.segment_set(cols([s[0] for s in segs]), cols([s[1] for s in segs]))
             if kind == "ptpoly":
-                return D.points_polygon(cols(_pts(case, "pts")), cols(_pts(case, "poly")), tol=float(TOL_P * F(2) ** case.get("k", 0)))
+                return D.points_polygon(np.array(fl(_pts(case, "pts")[0])) if case.get("flat") else cols(_pts(case, "pts")), cols(_pts(case, "poly")), tol=float(TOL_P * F(2) ** case.get("k", 0)))
             if kind == "segpoly":
                 segs = _segs(case, "segs")
+                if case.get("flat"):
+                    return D.segments_polygon(np.array(fl(segs[0][0])), np.array(fl(segs[0][1])), cols(_pts(case, "poly")), tol=float(TOL_P * F(2) ** case.get("k", 0)))
                 return D.segments_polygon(cols([s[0] for s in segs]), cols([s[1] for s in segs]), cols(_pts(case, "poly")), tol=float(TOL_P * F(2) ** case.get("k", 0)))
     raise ValueError(kind)
 
@@ -586,7 +626,11 @@ def impl_run(case):
     except Exception as e:
         return err_kind(e)
     if kind == "ptpt":
+        if case.get("exponent", 2) == 1:
+            return {"d1": [fstr(x) for x in out]}
         return {"d2": [_sq(x) for x in out]}
+    if kind == "ptset":
+        return {"d2": [[_sq(x) for x in row] for row in out]}
     if kind == "ptseg":
         d, cp = out
         return {"d2": [[_sq(x) for x in row] for row in d], "cp": [[[fstr(x) for x in cp[i, j]] for j in range(cp.shape[1])] for i in range(cp.shape[0])]}
@@ -612,7 +656,9 @@ def model_ops(case):
     E = lambda v: enc(dec(v, k))
     Es = lambda segs: [[E(a), E(b)] for a, b in segs]
     if kind == "ptpt":
-        return [{"op": "ptpt", "p": E(case["p"]), "q": [E(q) for q in case["q"]]}]
+        return [{"op": "ptpt1" if case.get("exponent", 2) == 1 else "ptpt", "p": E(case["p"]), "q": [E(q) for q in case["q"]]}]
+    if kind == "ptset":
+        return [{"op": "ptset", "pts": [E(x) for x in case["pts"]], "max_diag": case["max_diag"]}]
     if kind == "ptseg":
         return [{"op": "ptseg", "pts": [E(x) for x in case["pts"]], "segs": Es(case["segs"])}]
     if kind == "segseg":
@@ -700,6 +746,10 @@ def compare(impl, model, case):
         return _cmp_num(a, b, path, 1e-9, abs_)
 
     if kind == "ptpt":
+        if case.get("exponent", 2) == 1:
+            return tree(impl["d1"], model["d1"], ".d1", A1)
+        return tree(impl["d2"], model["d2"], ".d2", A2)
+    if kind == "ptset":
         return tree(impl["d2"], model["d2"], ".d2", A2)
     if kind in ("ptseg", "segset"):
         return tree(impl["d2"], model["d2"], ".d2", A2) or tree(impl["cp"], model["cp"], ".cp", A1)
@@ -756,6 +806,8 @@ def oracle(case):
     try:
         out = _call(case)
     except Exception as e:
+        if kind == "ptpoly" and case.get("flat") and isinstance(e, IndexError):
+            return {"key": "points_polygon:1d-point:raises:IndexError", "what": f"points_polygon(p of shape (3,), poly) raised IndexError: {str(e)[:80]}"}
         if kind == "segset":
             return {"key": f"segment_set:raises:{type(e).__name__}", "what": f"segment_set({len(case['segs'])} segments, {case['nd']}-d) raised {type(e).__name__}: {str(e)[:80]}"}
         return {"key": f"{kind}:raises:{type(e).__name__}", "what": f"{kind} raised {type(e).__name__}: {str(e)[:120]} on {case}"}
@@ -765,9 +817,27 @@ def oracle(case):
             _fail(fails, "point_pointset:length", f"{len(out)} distances for {len(qs)} points")
         else:
             for i, q in enumerate(qs):
+                if case.get("exponent", 2) == 1:
+                    ex1 = float(sum(abs(x) for x in sub(p, q)))
+                    if not _near(float(out[i]), ex1, 1e-9 * max(S, ex1)):
+                        _fail(fails, "point_pointset:exponent-1", f"point_pointset({case['p']},{case['q'][i]}, exponent=1) = {float(out[i])} but exact {ex1}")
+                    continue
                 ex = float(nsq(sub(p, q)))
                 if not _near(float(out[i]) ** 2, ex, 1e-9 * max(S2, ex)):
                     _fail(fails, "point_pointset:distance", f"point_pointset({case['p']},{case['q'][i]})^2 = {float(out[i])**2} but exact {ex}")
+    elif kind == "ptset":
+        pts = _pts(case, "pts")
+        n = len(pts)
+        if out.shape != (n, n):
+            _fail(fails, "pointset:shape", f"shape {out.shape} for {n} points")
+        else:
+            for i in range(n):
+                rowmax = max(float(nsq(sub(pts[i], q))) for q in pts)
+                for j in range(n):
+                    ex = float(nsq(sub(pts[i], pts[j]))) if i != j or not case["max_diag"] else 4 * rowmax
+                    if not _near(float(out[i, j]) ** 2, ex, 1e-9 * max(S2, ex)):
+                        _fail(fails, "pointset:max-diag" if i == j else "pointset:distance",
+                              f"pointset({case['pts']}, max_diag={case['max_diag']})[{i},{j}]^2 = {float(out[i, j])**2!r} but exact {ex!r}")
     elif kind == "ptseg":
         d, cp = out
         pts, segs = _pts(case, "pts"), _segs(case, "segs")
@@ -914,4 +984,43 @@ def stats(cases, impl_outs):
             tags[c["kind"] + ":" + t] = tags.get(c["kind"] + ":" + t, 0) + 1
     nan = sum(1 for o in impl_outs if "nan" in str(o))
     errs = sum(1 for o in impl_outs if isinstance(o, dict) and "err" in o)
-    return {"dropped_knife_edge_cases": DROPPED["knife-edge"], "kinds": kinds, "dims": dims, "placement_tags": dict(sorted(tags.items())), "impl_outputs_with_nan": nan, "impl_exceptions": errs}
+    strata = {"scale:tiny(2^-20..-16)": 0, "scale:small(2^-15..-1)": 0, "scale:unit": 0, "scale:large(2^1..12)": 0, "flat-1d-input": 0,
+              "zero-length-segment": 0, "ptpt:exponent-1": 0, "ptpt:empty-set": 0, "ptset:max-diag": 0, "ptset:single-point": 0,
+              "ptseg:more-points-than-segments-loop": 0, "ptseg:more-segments-than-points-loop": 0,
+              "ptpoly:projection-inside": 0, "ptpoly:projection-on-boundary": 0, "ptpoly:projection-outside": 0,
+              "ptpoly:projection-on-edge-extension-inside": 0, "segpoly:true-distance-zero": 0, "segpoly:true-distance-positive": 0,
+              "segseg:exactly-parallel-pair": 0, "segseg:true-distance-zero": 0}
+    for c in cases:
+        k = c.get("k", 0)
+        strata["scale:tiny(2^-20..-16)" if k <= -16 else "scale:small(2^-15..-1)" if k < 0 else "scale:unit" if k == 0 else "scale:large(2^1..12)"] += 1
+        tg = c.get("tags", [])
+        strata["flat-1d-input"] += "flat-1d-input" in tg
+        strata["zero-length-segment"] += "zero-length" in tg
+        if c["kind"] == "ptpt":
+            strata["ptpt:exponent-1"] += c.get("exponent", 2) == 1
+            strata["ptpt:empty-set"] += len(c["q"]) == 0
+        elif c["kind"] == "ptset":
+            strata["ptset:max-diag"] += bool(c["max_diag"])
+            strata["ptset:single-point"] += len(c["pts"]) == 1
+        elif c["kind"] == "ptseg":
+            strata["ptseg:more-segments-than-points-loop" if len(c["pts"]) < len(c["segs"]) else "ptseg:more-points-than-segments-loop"] += 1
+        elif c["kind"] == "ptpoly":
+            c0 = dict(c, k=0)
+            poly = _pts(c0, "poly")
+            nrm = x_normal(poly)
+            for q in _pts(c0, "pts"):
+                pr, _ = x_project(q, poly[0], nrm)
+                m = x_membership(poly, pr)
+                strata["ptpoly:projection-inside" if m > 0 else "ptpoly:projection-on-boundary" if m == 0 else "ptpoly:projection-outside"] += 1
+                strata["ptpoly:projection-on-edge-extension-inside"] += m > 0 and x_on_edge_extension(poly, pr)
+        elif c["kind"] == "segpoly":
+            c0 = dict(c, k=0)
+            poly = _pts(c0, "poly")
+            for a, b in _segs(c0, "segs"):
+                strata["segpoly:true-distance-zero" if x_seg_poly(a, b, poly) == 0 else "segpoly:true-distance-positive"] += 1
+        elif c["kind"] == "segseg":
+            for (p0, p1), (q0, q1) in _pairs(c):
+                u, v = sub(p1, p0), sub(q1, q0)
+                strata["segseg:exactly-parallel-pair"] += nsq(u) * nsq(v) == dot(u, v) ** 2
+                strata["segseg:true-distance-zero"] += x_seg_seg(p0, p1, q0, q1) == 0
+    return {"strata": strata, "dropped_knife_edge_cases": DROPPED["knife-edge"], "kinds": kinds, "dims": dims, "placement_tags": dict(sorted(tags.items())), "impl_outputs_with_nan": nan, "impl_exceptions": errs}
